@@ -420,7 +420,7 @@ def plan(tier, seed):
         ids = [ids[i] for i in sorted(rng.choice(len(ids), size=min(200, len(ids)), replace=False).tolist())]
         nsh, budget = 16, 150
     else:
-        nsh, budget = 64, 1500
+        nsh, budget = 64, 400
     shards = [{"kind": "catalog", "ids": ids[i::nsh], "budget_s": budget} for i in range(nsh)]
     shards += [{"kind": "generated", "shard": i, "seed": seed, "examples": 8 if tier == "quick" else 60} for i in range(8 if tier == "quick" else 32)]
     shards += [{"kind": "graphs", "shard": i, "seed": seed, "examples": 120 if tier == "quick" else 900} for i in range(8 if tier == "quick" else 32)]
